@@ -224,6 +224,14 @@ def _statistical(ctx, model, df, cols, S, rng, where):
             # has latent variance ~0 (C01's finding F31) and its normal scores cannot be recovered from samples
             ctx.note('statistical layer skipped for a column with degenerate normal scores')
             continue
+        # the back-transform needs an invertible fitted marginal: a law with an atom at floating-point resolution
+        # (GammaUnivariate with a = 0.015 forced on log-laplace data puts 60 % of its mass on one double) is skipped
+        qg = np.linspace(0.02, 0.98, 25)
+        uj = model.univariates[free[a]]
+        okr, back = ctx.call(lambda: np.asarray(uj.cdf(np.asarray(uj.percent_point(qg), dtype=float)), dtype=float))
+        if not okr or not np.allclose(back, qg, rtol=0, atol=1e-6):
+            ctx.note('statistical layer skipped for a column whose fitted marginal is not invertible at fp resolution')
+            continue
         std = (Zs[:, a] - mref[a]) / sd[a]
         dks = stats.ks_distance(std, ndtr)
         ctx.check(dks <= eps + 1e-3, 'cond.statistical', 'C12:conditional-law-off',
